@@ -195,6 +195,39 @@ PAIR_NAMES = [(b"caf\xe9", b"caf\xe8"), (b"a\xffb", b"a\xfeb"), ("e\u0301t\u00e9
               (b"Dir", b"dir"), (b"x y", b"x  y"), (b"p.", b"p"), (b"q", "q\u200b".encode()), (b"ab", b"a")]
 
 
+def non_utf8_section(pid, res, count):
+    """C02 on names that are not valid UTF-8 (oracle only: the model's names are strings). Whatever the tool does with such a
+    name — today every run fails at the save of the record, after converging the trees — a file created on ONE side must never be
+    DELETED: `caf\\xE9.txt` synced on both sides, then `caf<U+FFFD>.txt` (what a lossy conversion makes of the first name) created
+    on one side with the same content. A record keyed by lossy names holds false evidence that both sides had it (seed C02-K)."""
+    for side in (b"A", b"B"):
+        for same in (True, False):
+            with Sandbox(pid) as sb:
+                base = os.fsencode(sb.dir)
+                a, b = os.path.join(base, b"A"), os.path.join(base, b"B")
+                os.makedirs(a); os.makedirs(b)
+                for r_ in (a, b):
+                    open(os.path.join(r_, b"caf\xe9.txt"), "wb").write(b"v0 synced\n")
+                    open(os.path.join(r_, b"plain.txt"), "wb").write(b"p\n")
+                runs = []
+                def go():
+                    r = subprocess.run([os.fsencode(CLI_BIN), b"bisync", a, b], env=sb.env, cwd=sb.dir, stdout=subprocess.PIPE, stderr=subprocess.PIPE)
+                    runs.append((r.returncode, r.stderr.decode("utf-8", "replace")[-200:]))
+                go(); go()
+                twin = "caf\ufffd.txt".encode()
+                body = b"v0 synced\n" if same else b"other content\n"
+                open(os.path.join(a if side == b"A" else b, twin), "wb").write(body)
+                go(); go()
+                count("non-utf8/lossy-twin")
+                here = {s_: os.path.exists(os.path.join(r_, twin)) and open(os.path.join(r_, twin), "rb").read() == body for s_, r_ in (("A", a), ("B", b))}
+                rep = {"history": ["both sides: caf\\xe9.txt = v0, plain.txt", "bisync x2", f"write {side.decode()} caf<U+FFFD>.txt = {'v0 (same bytes)' if same else 'other'}", "bisync x2"],
+                       "runs": runs, "twin_present": here}
+                if not here[side.decode()]:
+                    res["violations"].append(("one-sided-creation-deleted", f"a file created on side {side.decode()} only (its name is the lossy form of a non-UTF-8 name already synced) is gone from that side after bisync", rep))
+                elif not all(here.values()) and all(rc == 0 for rc, _ in runs[2:]):
+                    res["violations"].append(("one-sided-creation-not-propagated", "the run(s) exited 0 and the one-sided creation is not on both sides", rep))
+
+
 def pair_identity_section(pid, res, count):
     """C06/C07: the record of one root pair is never taken for another pair's. The archive's name must be
     blake3(canon(A) NUL canon(B)) over the exact path BYTES (the model of pair identity), and a first run on a pair
@@ -482,6 +515,8 @@ def run(pid, tier, seed, rundir, model_run):
                 if run_variant:
                     count("variant/" + run_variant)
     pair_dis = pair_identity_section(pid, res, count) if pid in ("C07", "C06") else 0
+    if pid == "C02":
+        non_utf8_section(pid, res, count)
     ops_f.close()
     with open(os.path.join(rundir, "impl.txt"), "w") as f:
         f.write("\n".join(impl_lines) + ("\n" if impl_lines else ""))
